@@ -76,7 +76,8 @@ ASSUMPTIONS = [
     'position) and zero-Cp data are never shuffled',
     'every segment of a requested break layout holds enough data to determine the Cp polynomial: '
     '>=6 points on either side of every NASA-7 T_mid candidate, >=9 points per NASA-9 interval in '
-    'from_data; NASA-9 intervals are at least max(40 K, 12 % of the window) wide',
+    'from_data; NASA-9 intervals requested from from_model are at least min(max(40 K, 12 % of the '
+    'window), 80 % of an equal share) wide',
     'Shomate units are the 16 strings of the documented pmutt.constants.R table (two strings of '
     'vf.gen.species.SHOMATE_UNITS are not accepted by pMuTT and are not fitting units)',
     'A1 for from_model uses the (T_ref, H_ref, S_ref) that from_model handed to from_data (probe '
@@ -371,7 +372,7 @@ def make_case(rng, cls=None, ctor=None, src=None, window=None, n_T=None, T_mid_m
                 br.append(_between(rng, Ts, cum - 1))
         else:
             span = hi - lo
-            wmin = max(40.0, 0.12 * span)
+            wmin = min(max(40.0, 0.12 * span), 0.8 * span / nseg)
             while True:
                 br = sorted(_r2(rng.uniform(lo, hi)) for _ in range(nseg - 1))
                 e = [lo] + br + [hi]
